@@ -31,6 +31,7 @@ const (
 	kfStaleDeletedSub = "C14-stale-deleted-subscription" // re-created name keeps its "deleted but subscribed" row
 	kfRenameRecovery  = "C14-rename-under-recovery"      // RENAME may create inferiors of the recovery mailbox
 	kfEmptyNameFlat   = "C14-empty-name-empty-delimiter" // empty mailbox name with the "" delimiter: index out of range, panic
+	kfRenameUpwards   = "C14-rename-subtree-upwards"     // inferiors renamed one by one collide with not yet renamed ones
 	maxSteps          = 25
 	inboxSpellings    = 4
 	recoverySpellings = 3
@@ -181,6 +182,12 @@ func (w *world) fresh(label string) string {
 
 	parts := make([]string, depth)
 	for i := range parts {
+		// repeated levels (a/b/b/b): moving such a subtree maps names onto names of the same subtree
+		if i > 0 && w.draw(3, label+"/repeat") == 0 {
+			parts[i] = parts[i-1]
+			continue
+		}
+
 		parts[i] = w.seg(label + "/seg")
 	}
 
@@ -245,18 +252,27 @@ func (w *world) name(label string) string {
 
 // existing draws an existing mailbox, preferring those with inferiors.
 func (w *world) existing(label string) (string, bool) {
-	var all, parents []string
+	var all, ordinary, parents []string
 
 	for _, n := range w.m.Names() {
 		all = append(all, n)
 
-		if len(w.m.Inferiors(n)) > 0 && n != ns.Inbox {
+		if n == ns.Inbox || n == ns.Recovery {
+			continue
+		}
+
+		ordinary = append(ordinary, n)
+
+		if len(w.m.Inferiors(n)) > 0 {
 			parents = append(parents, n)
 		}
 	}
 
-	if len(parents) > 0 && w.draw(3, label+"/parent?") > 0 {
+	switch c := w.draw(8, label+"/class"); {
+	case c <= 3 && len(parents) > 0:
 		return w.pick(parents, label+"/parent"), true
+	case c <= 6 && len(ordinary) > 0:
+		return w.pick(ordinary, label+"/ordinary"), true
 	}
 
 	return w.pick(all, label+"/any"), true
@@ -351,7 +367,16 @@ func clone(m *ns.Model) *ns.Model {
 }
 
 func (w *world) create() {
-	name := w.name("create")
+	var name string
+
+	switch c := w.draw(10, "create/how"); {
+	case c <= 2:
+		name = w.fresh("create")
+	case c <= 5:
+		name = w.respell(w.pick(w.pool(), "create/parent"), "create") + w.joiner() + w.fresh("create")
+	default:
+		name = w.name("create")
+	}
 
 	if w.delim != "" {
 		switch w.draw(12, "create/shape") {
@@ -407,7 +432,21 @@ func (w *world) rename() {
 	pool := w.pool()
 	j := w.joiner()
 
-	switch c := w.draw(10, "rename/to"); {
+	sup := w.m.Superiors(w.m.Canon(strings.TrimSuffix(from, w.joiner())))
+
+	var free []string // superiors of the source that are not mailboxes (visible as \Noselect only)
+
+	for _, n := range sup {
+		if _, ok := w.m.Boxes[n]; !ok {
+			free = append(free, n)
+		}
+	}
+
+	switch c := w.draw(13, "rename/to"); {
+	case c >= 11 && len(free) > 0:
+		to = w.pick(free, "rename/to/free-superior") // the subtree moves up onto a \Noselect name
+	case c >= 10 && len(sup) > 0:
+		to = w.pick(sup, "rename/to/superior")
 	case c <= 3:
 		to = w.fresh("rename/to")
 	case c == 4:
@@ -429,11 +468,35 @@ func (w *world) rename() {
 		to = strings.TrimSuffix(to, w.delim)
 	}
 
+	// Targets that merely begin with the recovery name (other spelling, longer word) are left out: CREATE refuses
+	// them (a prefix test), for RENAME neither gluon's tests nor the property say anything.
+	if ns.UnderRecovery(to) && !w.m.BelowRecovery(to) && !strings.EqualFold(to, ns.Recovery) {
+		to = "zz" + to
+	}
+
 	if w.m.BelowRecovery(to) && kf.Listed(kfRenameRecovery) {
 		ev.Excluded(1)
 		w.label("steer:rename-under-recovery")
 
 		to = "z" + to
+	}
+
+	// known finding C14-rename-subtree-upwards: the new name of an inferior is the present name of another inferior
+	if kf.Listed(kfRenameUpwards) && w.delim != "" {
+		o, n := w.m.Canon(from), w.m.Canon(to)
+		infs := w.m.Inferiors(o)
+
+		for _, inf := range infs {
+			target := n + strings.TrimPrefix(inf, o)
+			if _, isBox := w.m.Boxes[target]; isBox && target != inf && strings.HasPrefix(target, o+w.delim) {
+				ev.Excluded(1)
+				w.label("steer:rename-upwards")
+
+				to = "z" + to
+
+				break
+			}
+		}
 	}
 
 	w.steerStaleSub(func(m *ns.Model) { m.Rename(from, to) })
@@ -446,16 +509,21 @@ func (w *world) rename() {
 func (w *world) subscribe(un bool) {
 	var name string
 
-	switch w.draw(4, "sub/how") {
-	case 0:
-		name = w.name("sub")
-	case 1:
-		if ds := w.m.DeletedSubNames(); len(ds) > 0 {
-			name = w.pick(ds, "sub/deleted")
-			break
-		}
+	var cand []string // names whose subscription state the command would change
 
-		fallthrough
+	for _, n := range w.m.Names() {
+		if w.m.Boxes[n].Subscribed == un {
+			cand = append(cand, n)
+		}
+	}
+
+	switch c := w.draw(8, "sub/how"); {
+	case c == 0:
+		name = w.name("sub")
+	case c == 1 && len(w.m.DeletedSubs) > 0:
+		name = w.pick(w.m.DeletedSubNames(), "sub/deleted")
+	case c <= 5 && len(cand) > 0:
+		name = w.respell(w.pick(cand, "sub/cand"), "sub")
 	default:
 		n, _ := w.existing("sub")
 		name = w.respell(n, "sub")
@@ -607,8 +675,12 @@ func (w *world) remoteBoxes() []string {
 
 func (w *world) connRename() {
 	boxes := w.remoteBoxes()
+	if len(boxes) == 0 {
+		w.connCreate()
+		return
+	}
 
-	if len(boxes) == 0 || w.draw(12, "connRename/special") == 0 {
+	if w.draw(12, "connRename/special") == 0 {
 		id := []string{recoveryID, "mb-unknown"}[w.draw(2, "connRename/which")]
 		w.deliver("connRename-special", imap.NewMailboxUpdated(imap.MailboxID(id), []string{"zz"}), w.m.ConnRename(id, "zz", recoveryID))
 
@@ -627,15 +699,23 @@ func (w *world) connRename() {
 
 func (w *world) connDelete() {
 	boxes := w.remoteBoxes()
+	if len(boxes) == 0 {
+		w.connCreate()
+		return
+	}
 
-	if len(boxes) == 0 || w.draw(12, "connDelete/special") == 0 {
+	if w.draw(12, "connDelete/special") == 0 {
 		id := []string{recoveryID, "mb-unknown"}[w.draw(2, "connDelete/which")]
 		w.deliver("connDelete-special", imap.NewMailboxDeleted(imap.MailboxID(id)), w.m.ConnDelete(id, recoveryID))
 
 		return
 	}
 
-	n := w.pick(boxes, "connDelete/which")
+	n, _ := w.existing("connDelete")
+	if n == ns.Inbox || n == ns.Recovery {
+		n = w.pick(boxes, "connDelete/which")
+	}
+
 	if infs := w.m.Inferiors(n); len(infs) > 0 {
 		w.label("connDelete-left-noselect")
 	}
@@ -646,27 +726,28 @@ func (w *world) connDelete() {
 
 // ---- LIST / LSUB ----
 
-func (w *world) parse(r *imapc.Result, kw string) map[string]bool {
+// parseList turns the untagged responses of a LIST / LSUB command into name -> has \Noselect.
+func parseList(r *imapc.Result, kw, delim string) (map[string]bool, error) {
 	res := map[string]bool{}
 
 	for _, u := range r.Untagged {
 		if u.Keyword() != kw {
-			w.fail("%s: unexpected untagged response %q", r.Cmd, u.Raw)
+			return nil, fmt.Errorf("unexpected untagged response %q", u.Raw)
 		}
 
 		if len(u.Tokens) != 4 || u.Tokens[1].Kind != imapc.List || u.Tokens[3].Kind == imapc.List {
-			w.fail("%s: malformed response %q", r.Cmd, u.Raw)
+			return nil, fmt.Errorf("malformed response %q", u.Raw)
 		}
 
 		// hierarchy delimiter (RFC 3501 7.2.2): the configured one, NIL in a flat namespace
 		d := u.Tokens[2]
-		if (w.delim == "" && !d.IsNil()) || (w.delim != "" && (d.Kind != imapc.Quoted || d.Str != w.delim)) {
-			w.fail("%s: response %q reports hierarchy delimiter %s, configured is %q", r.Cmd, u.Raw, d, w.delim)
+		if (delim == "" && !d.IsNil()) || (delim != "" && (d.Kind != imapc.Quoted || d.Str != delim)) {
+			return nil, fmt.Errorf("response %q reports hierarchy delimiter %s, configured is %q", u.Raw, d, delim)
 		}
 
 		name, err := enc.NewDecoder().String(u.Tokens[3].Str)
 		if err != nil {
-			w.fail("%s: name in %q is not valid modified UTF-7: %v", r.Cmd, u.Raw, err)
+			return nil, fmt.Errorf("name in %q is not valid modified UTF-7: %v", u.Raw, err)
 		}
 
 		nosel := false
@@ -678,10 +759,19 @@ func (w *world) parse(r *imapc.Result, kw string) map[string]bool {
 		}
 
 		if _, dup := res[name]; dup {
-			w.fail("%s: name %q reported twice (names are unique)", r.Cmd, name)
+			return nil, fmt.Errorf("name %q reported twice (names are unique)", name)
 		}
 
 		res[name] = nosel
+	}
+
+	return res, nil
+}
+
+func (w *world) parse(r *imapc.Result, kw string) map[string]bool {
+	res, err := parseList(r, kw, w.delim)
+	if err != nil {
+		w.fail("%s: %v", r.Cmd, err)
 	}
 
 	return res
@@ -951,7 +1041,7 @@ func (w *world) drawQuery() (ref, pattern string) {
 	cut := 0
 
 	switch c := w.draw(10, "query/split"); {
-	case c <= 4:
+	case c <= 2:
 	case c <= 6 && len(after) > 0:
 		cut = after[w.draw(len(after), "query/after")]
 		w.label("ref:name+delim")
@@ -1043,6 +1133,47 @@ func (w *world) step(f func()) func(*rapid.T) {
 	}
 }
 
+// socketTrouble recognises resource exhaustion of the machine (many checks run side by side: loopback ports in
+// TIME_WAIT, descriptors); it says nothing about the server under test.
+func socketTrouble(err error) bool {
+	if err == nil {
+		return false
+	}
+
+	for _, m := range []string{"address already in use", "cannot assign requested address", "too many open files", "connection refused", "i/o timeout"} {
+		if strings.Contains(err.Error(), m) {
+			return true
+		}
+	}
+
+	return false
+}
+
+// startBed starts a server; when the machine is out of loopback ports it waits and tries again.
+func startBed(opt bed.Options) (b *bed.Bed, err error) {
+	for try := 0; try < 100; try++ {
+		if b, err = bed.Start(opt, bed.UserSpec{Name: "user", Pass: "pass"}); !socketTrouble(err) {
+			return b, err
+		}
+
+		time.Sleep(200 * time.Millisecond)
+	}
+
+	return nil, err
+}
+
+func login(b *bed.Bed, name string) (s *bed.Session, err error) {
+	for try := 0; try < 100; try++ {
+		if s, err = b.Login(name, b.Users[0]); !socketTrouble(err) {
+			return s, err
+		}
+
+		time.Sleep(200 * time.Millisecond)
+	}
+
+	return nil, err
+}
+
 func run(t *rapid.T) {
 	di := rapid.IntRange(0, len(delims)-1).Draw(t, "delimiter")
 	delim := delims[di]
@@ -1053,9 +1184,9 @@ func run(t *rapid.T) {
 		opt.Delimiter = bed.FlatDelimiter
 	}
 
-	b, err := bed.Start(opt, bed.UserSpec{Name: "user", Pass: "pass"})
+	b, err := startBed(opt)
 	if err != nil {
-		t.Fatalf("harness: %v", err)
+		t.Fatalf("VERIF-INCONCLUSIVE: harness: cannot start the server: %v", err)
 	}
 
 	defer b.Destroy()
@@ -1066,8 +1197,10 @@ func run(t *rapid.T) {
 	w.op("delimiter %q, %d session(s)", delim, nSess)
 
 	for i := 0; i < nSess; i++ {
-		s, err := b.Login(fmt.Sprintf("s%d", i), w.u)
-		w.harness(err)
+		s, err := login(b, fmt.Sprintf("s%d", i))
+		if err != nil {
+			t.Fatalf("VERIF-INCONCLUSIVE: harness: cannot log in: %v\nhistory:\n%s", err, b.Hist)
+		}
 
 		defer func() {
 			if w.failed {
@@ -1113,6 +1246,12 @@ func run(t *rapid.T) {
 			w.op("query %q %q", ref, pattern)
 			w.query(w.session(), ref, pattern)
 		},
+	}
+
+	// a drawn number of initial CREATEs (they count as steps) so that short cases also start from a hierarchy
+	for i, n := 0, rapid.IntRange(0, 3).Draw(t, "prefill"); i < n; i++ {
+		w.steps++
+		w.create()
 	}
 
 	t.Repeat(actions)
